@@ -567,6 +567,38 @@ func c04SaveLoop(p *Pkg, fname string) (shape string, flagVar string) {
 				return true
 			})
 			if syncs {
+				// when the fsync runs in a goroutine, SaveRaftState must wait for it after the loop
+				async := false
+				ast.Inspect(x.Body, func(n ast.Node) bool {
+					if _, ok := n.(*ast.GoStmt); ok {
+						async = true
+					}
+					return true
+				})
+				if async {
+					waits := false
+					after := false
+					for _, st2 := range fn.Body.List {
+						if st2 == ast.Stmt(loop) {
+							after = true
+							continue
+						}
+						if !after {
+							continue
+						}
+						ast.Inspect(st2, func(n ast.Node) bool {
+							if c, ok := n.(*ast.CallExpr); ok {
+								if name, _ := c04CallName(c); name == "Wait" {
+									waits = true
+								}
+							}
+							return true
+						})
+					}
+					if !waits {
+						return "each-unwaited", ""
+					}
+				}
 				return "each", ""
 			}
 		case *ast.AssignStmt:
